@@ -300,7 +300,7 @@ fn navigate(v: &Value, cm: &CodeMap, doc: &RefDoc) -> Result<(usize, bool), Stri
 }
 
 /// Rendered tree with surrogate escapes injected after the opening quote, or (at_end) before the closing quote, of some strings.
-fn lenient_text(v: &RefValue, ch: &[u8], inj: &[(u16, String)], at_end: bool) -> String {
+pub fn lenient_text(v: &RefValue, ch: &[u8], inj: &[(u16, String)], at_end: bool) -> String {
 	let text = gen::render_doc(v, ch, gen::RenderCfg::FREE);
 	if !at_end {
 		return super::c12::inject(&text, inj);
